@@ -29,7 +29,7 @@ from detsim.sched import HarnessError, Scheduler
 PROP = "C11"
 LEVEL = "exploration"
 RUNS = {"quick": 10000, "thorough": 150000}
-BUDGET_S = {"quick": 90, "thorough": 1500}
+BUDGET_S = {"quick": 150, "thorough": 1500}
 RULE = ("each evaluation is one hinted query of a session (a) or one parse of a record-order-"
         "faulted file with all its stored timestamps re-queried (b, c). Distinct = distinct "
         "(tempo ticks, tick, resolved hint) resp. distinct faulted text digest; non-trivial = the "
